@@ -239,7 +239,7 @@ class DnsRecordDnskey(ParsableBase, Serializable):
     @staticmethod
     def _compose_public_key_dss(key_composer, key):
         key_params = key.params
-        key_size = key.key_size // 8
+        key_size = (key_params.prime.bit_length() + 7) // 8
 
         key_composer.compose_numeric((key_size - 64) // 8, 1)
         key_composer.compose_mpint(key_params.order, 20)
